@@ -8,6 +8,7 @@ import Driver.Render
 import Driver.Proc
 import AL.Model.SrcPos
 import Driver.Calls
+import Driver.Visit
 
 def dispatch (line : String) : String :=
   match (line.trimAscii.toString.splitOn " ").filter (· ≠ "") with
@@ -18,6 +19,7 @@ def dispatch (line : String) : String :=
   | "parse" :: args => Driver.Expr.handleParse args
   | "sema" :: args => Driver.SemaD.handle args
   | "tyop" :: args => Driver.SemaD.handleTyOp args
+  | "visit" :: args => Driver.VisitD.handle args
   | "lintsort" :: args => Driver.LintD.handleSort args
   | "relpath" :: args => Driver.LintD.handleRel args
   | "matcher" :: args => Driver.RenderD.handleMatcher args
